@@ -257,7 +257,7 @@ void pp_map_sim_weilp_k1(fp_t r, const ep_t *p, const ep_t *q, int m) {
 
 	fp_null(r0);
 	fp_null(r1);
-	bn_null(r);
+	bn_null(n);
 
 	RLC_TRY {
 		fp_new(r0);
